@@ -73,6 +73,16 @@ Proof.
     rewrite (set_str_loop_digits _ 0 Hl). rewrite Hv. lia.
 Qed.
 
+(* ---- absOutput prints the numeral of |z| *)
+Definition AbsOutput_stmt : Prop := forall z : Z, Integer_absOutput z = print_Z (Z.abs z).
+Lemma abs_output : AbsOutput_stmt.
+Proof.
+  intro z. unfold Integer_absOutput, print_Z.
+  destruct (Z.ltb_spec z 0).
+  - destruct (Z.ltb_spec (Z.abs z) 0); [lia|]. f_equal. lia.
+  - destruct (Z.ltb_spec (Z.abs z) 0); [lia|]. f_equal. lia.
+Qed.
+
 (* ---- num_get for a signed integral type with range [lo, hi] *)
 Lemma num_get_roundtrip lo hi z g ws rs :
   lo <= z <= hi -> Forall space ws -> head_nondigit rs ->
